@@ -130,6 +130,13 @@ def canon_el(el):
     return _py(el)
 
 
+def denorm(e):
+    """canonical form -> numbers ('nan'/'inf' strings back to floats)"""
+    if isinstance(e, list):
+        return [denorm(x) for x in e]
+    return float(e) if isinstance(e, str) else e
+
+
 def canon_elements(elements):
     return [canon_el(e) for e in elements]
 
